@@ -151,6 +151,8 @@ def havoc_value(eng, name, v):
         return v  # references are stable; contents are havoced through the heap
     if isinstance(v, Exc):
         return v
+    if isinstance(v, (list, dict)):
+        return Opq(eng.fresh(name, "V"))  # a Python container mutated in the loop: contents unknown afterwards
     raise Unsupported(f"cannot havoc loop-modified variable {name} of type {type(v).__name__}")
 
 
@@ -160,6 +162,10 @@ def havoc(eng, st, body, extra_alias=None, also_names=()):
     for n in sorted(names):
         if n in s.env:
             s.env[n] = havoc_value(eng, n, s.env[n])
+    # python-level containers mutated through methods (ldrs.append(x)) lose their contents
+    for root, _f in store_roots(body):
+        if root in s.env and isinstance(s.env[root], (list, dict)) and root not in names:
+            s.env[root] = havoc_value(eng, root, s.env[root])
     from . import generators
     if "#out" in s.ghost and generators.body_yields(body):
         s = generators.havoc_out(eng, s)
